@@ -17,7 +17,7 @@ pub const FLT_CONSTS: &[f64] = &[0.0, 0.5, 1.0, 1.5, -1.5, 2.0, 10.0, 1e19];
 /// (regex, notes): valid regexes incl. every `.*` adjacency the rewrite pass looks at
 pub const REGEXES: &[&str] = &[
     "^fo+", "ba[rz]$", ".*foo.*", ".*bar", "foo.*", "b.r", "[0-9]+", "^$", "o", ".*", ".*.*", "^.*foo.*$", "(foo|bar).*", ".*(a|b)",
-    "fo{2}", "\\.", "x1?", "^(?:ba)+", ".*?bar", "a\\.*", ".*+x", ".*?", "foo.*?", ".*{1}o", "fo\\\\.*",
+    "fo{2}", "\\.", "x1?", "^(?:ba)+", ".*?bar", "a\\.*", ".*+x", ".*?", "foo.*?", ".*{1}o", "fo\\\\.*", "^\\D+$", "\\S\\S", "\\W", "\\Bo", "[A-C]ar", "^\\d+$", "(?-i)Foo", "\\x42", "[[:upper:]]", "\\p{Lu}",
 ];
 
 #[derive(Clone, Debug)]
